@@ -89,7 +89,9 @@ class RenderContext:
 
         # A read-only namespace containing globally available variables. Usually
         # passed down from the environment.
-        self.globals: Mapping[str, object] = globals or {}
+        # NOTE: An empty mapping is falsy, but it might be a chain map that the
+        # `render` tag will push a bound variable on to later.
+        self.globals: Mapping[str, object] = globals if globals is not None else {}
 
         # A namespace for `increment` and `decrement` counters.
         self.counters: dict[str, int] = {}
